@@ -51,6 +51,11 @@ def gen_grammars(prop, tier, n, profile):
         if k in seen: return
         seen.add(k); out.append(g)
     core = gg.core_grammars(wide=(profile in ('plain', 'allclasses')), heavy=(tier == 'thorough'))
+    if profile in ('plain', 'allclasses'):
+        base = [g for g in core if 2 <= len(g.nts) <= 5 and len(g.terms) <= 8]
+        for k, total in enumerate([62, 63, 64, 126, 127]):
+            h = gg.pad_terms(base[(k * 5 + common.seed()) % len(base)], total)
+            if h is not None: core.append(h)
     if profile == 'plain':
         for g in core: add(g)
         for g in core[:12]: add(gg.shuffle_symbols(g, rnd))
@@ -141,6 +146,15 @@ def gen_grammars(prop, tier, n, profile):
     elif profile == 'recovery':     # C08
         for g in gg.err_core(): add(g)
         for g in gg.err_core(): add(gg.decorate(g, rnd, strings=0, typed=0.7, dflt=0.1))
+        # term counts that put <eof> / the error token at the boundaries of the machine words of the term bit sets
+        ec = gg.err_core()
+        for total in (63, 127):        # the error token alone in the last word
+            for g in ec:
+                h = gg.pad_terms(g, total)
+                if h is not None: add(h)
+        for k, total in enumerate([62, 64, 61, 126, 128]):
+            h = gg.pad_terms(ec[(k * 3 + common.seed()) % len(ec)], total)
+            if h is not None: add(h)
         st = gg.grammar_stream(rnd, want_lr1=0.9)
         while len(out) < n:
             g, tb = next(st)
@@ -324,7 +338,7 @@ def c02(tier):
 def c09(tier):
     ck = Check('C09', tier)
     q = tier == 'quick'
-    cfg = {'modes': [0, 4, 8, 9], 'exh_cap': 300 if q else 600, 'exh_len': 5, 'n_rand': 30, 'n_mut': 80, 'long': (30, 120), 'n_raw': 16, 'long_gap': 2}
+    cfg = {'modes': [0, 3, 4, 8, 9], 'exh_cap': 300 if q else 600, 'exh_len': 5, 'n_rand': 30, 'n_mut': 80, 'long': (30, 120), 'n_raw': 16, 'long_gap': 2}
     gs = gen_grammars('C09', tier, 160 if q else 2000, 'plain') + gen_grammars('C09', tier, 96 if q else 1000, 'decorated')
     rnd = random.Random(common.seed() * 9001 + 9)
     gs = [nonprintable_terms(g, rnd) if (i % 4 == 1 and len(g.terms) <= 12 and not getattr(g, 'lexspec', None)) else g for i, g in enumerate(gs)]
@@ -339,7 +353,7 @@ def c09(tier):
 def c10(tier):
     ck = Check('C10', tier)
     q = tier == 'quick'
-    cfg = {'modes': [0, 7, 8, 9], 'exh_cap': 120 if q else 300, 'exh_len': 4, 'n_rand': 40, 'n_mut': 40, 'long': (30, 120) if q else (100, 600),
+    cfg = {'modes': [0, 3, 4, 7, 8, 9], 'exh_cap': 120 if q else 300, 'exh_len': 4, 'n_rand': 40, 'n_mut': 40, 'long': (30, 120) if q else (100, 600),
            'n_ws': 400, 'ws': 0.6, 'n_raw': 10, 'long_gap': 2}
     merge(ck, run_pipeline('C10', tier, gen_grammars('C10', tier, 128 if q else 1500, 'positions'), cfg))
     ck.cov['rule'] = ('grammars with char/string/typed terms, multi-line lexemes, newline and whitespace characters as terms, error rules; inputs dense in space, tab, CR, LF, VT, FF; '
@@ -478,6 +492,11 @@ def ctor_reject_cases(rnd, n):
         ('undeclared-regex-term', "constexpr char pa[] = \"[0-9]+\"; constexpr char pb[] = \"[a-z]+\"; constexpr regex_term<pa> ta(\"ta\"); constexpr regex_term<pb> tb(\"tb\"); constexpr nterm<int> S(\"S\");\n#define VF_P parser p(S, terms(ta), nterms(S), rules(S(ta, tb) >= [](auto, auto){ return 1; }))", "constexpr char pa[] = \"[0-9]+\"; constexpr char pb[] = \"[a-z]+\"; constexpr regex_term<pa> ta(\"ta\"); constexpr regex_term<pb> tb(\"tb\"); constexpr nterm<int> S(\"S\");\n#define VF_P parser p(S, terms(ta, tb), nterms(S), rules(S(ta, tb) >= [](auto, auto){ return 1; }))"),
         ('undeclared-regex-term-same-name', "constexpr char pa[] = \"[0-9]+\"; constexpr char pb[] = \"[a-z]+\"; constexpr regex_term<pa> ta(\"value\"); constexpr regex_term<pb> tb(\"value\"); constexpr nterm<int> S(\"S\");\n#define VF_P parser p(S, terms(ta), nterms(S), rules(S(tb) >= [](auto){ return 1; }))", "constexpr char pa[] = \"[0-9]+\"; constexpr char pb[] = \"[a-z]+\"; constexpr regex_term<pa> ta(\"value\"); constexpr regex_term<pb> tb(\"value\"); constexpr nterm<int> S(\"S\");\n#define VF_P parser p(S, terms(ta, tb), nterms(S), rules(S(tb) >= [](auto){ return 1; }))"),
         ('undeclared-regex-term-name-of-char', "constexpr char pb[] = \"[a-z]+\"; constexpr regex_term<pb> tb(\"a\"); constexpr nterm<int> S(\"S\");\n#define VF_P parser p(S, terms('a'), nterms(S), rules(S('a', tb) >= [](auto, auto){ return 1; }))", "constexpr char pb[] = \"[b-z]+\"; constexpr regex_term<pb> tb(\"a\"); constexpr nterm<int> S(\"S\");\n#define VF_P parser p(S, terms('a', tb), nterms(S), rules(S('a', tb) >= [](auto, auto){ return 1; }))"),
+        # the constructor forms without a name: regex_term(associativity), regex_term(precedence, associativity); string_term / char_term with precedence
+        ('undeclared-unnamed-regex-term', "constexpr char pa[] = \"[0-9]+\"; constexpr char pb[] = \"[a-z]+\"; constexpr regex_term<pa> ta(1, associativity::ltor); constexpr regex_term<pb> tb(associativity::ltor); constexpr nterm<int> S(\"S\");\n#define VF_P parser p(S, terms(ta), nterms(S), rules(S(tb) >= [](auto){ return 1; }))", "constexpr char pa[] = \"[0-9]+\"; constexpr char pb[] = \"[a-z]+\"; constexpr regex_term<pa> ta(1, associativity::ltor); constexpr regex_term<pb> tb(associativity::ltor); constexpr nterm<int> S(\"S\");\n#define VF_P parser p(S, terms(ta, tb), nterms(S), rules(S(tb) >= [](auto){ return 1; }))"),
+        ('undeclared-unnamed-regex-term-2', "constexpr char pa[] = \"[0-9]+\"; constexpr char pb[] = \"[a-z]+\"; constexpr regex_term<pa> ta(2, associativity::rtol); constexpr regex_term<pb> tb(3, associativity::no_assoc); constexpr nterm<int> S(\"S\");\n#define VF_P parser p(S, terms(tb), nterms(S), rules(S(ta, tb) >= [](auto, auto){ return 1; }))", "constexpr char pa[] = \"[0-9]+\"; constexpr char pb[] = \"[a-z]+\"; constexpr regex_term<pa> ta(2, associativity::rtol); constexpr regex_term<pb> tb(3, associativity::no_assoc); constexpr nterm<int> S(\"S\");\n#define VF_P parser p(S, terms(tb, ta), nterms(S), rules(S(ta, tb) >= [](auto, auto){ return 1; }))"),
+        ('undeclared-term-object-with-precedence', "constexpr char_term ta('a', 1, associativity::ltor); constexpr string_term tb(\"bb\", 2, associativity::rtol); constexpr nterm<int> S(\"S\");\n#define VF_P parser p(S, terms(ta), nterms(S), rules(S(ta, tb) >= [](auto, auto){ return 1; }))", "constexpr char_term ta('a', 1, associativity::ltor); constexpr string_term tb(\"bb\", 2, associativity::rtol); constexpr nterm<int> S(\"S\");\n#define VF_P parser p(S, terms(ta, tb), nterms(S), rules(S(ta, tb) >= [](auto, auto){ return 1; }))"),
+        ('undeclared-custom-term', "constexpr custom_term ta(\"ta\", [](auto sv){ return 1; }); constexpr custom_term tb(\"tb\", [](auto sv){ return 2; }); constexpr nterm<int> S(\"S\");\nstruct Lx { template<class It, class ES> constexpr recognized_term match(match_options, source_point, It s, It e, ES&) const { return s == e ? recognized_term{} : recognized_term(0, 1); } };\n#define VF_P parser p(S, terms(ta), nterms(S), rules(S(ta, tb) >= [](auto, auto){ return 1; }), use_lexer<Lx>{})", "constexpr custom_term ta(\"ta\", [](auto sv){ return 1; }); constexpr custom_term tb(\"tb\", [](auto sv){ return 2; }); constexpr nterm<int> S(\"S\");\nstruct Lx { template<class It, class ES> constexpr recognized_term match(match_options, source_point, It s, It e, ES&) const { return s == e ? recognized_term{} : recognized_term(0, 1); } };\n#define VF_P parser p(S, terms(ta, tb), nterms(S), rules(S(ta, tb) >= [](auto, auto){ return 1; }), use_lexer<Lx>{})"),
         ('empty-nterm-name', "#define VF_P nterm<int> S(\"\")", "#define VF_P nterm<int> S(\"S\")"),
     ]
     k = 0
@@ -665,6 +684,10 @@ def c06(tier):
     for g, ins in zip(deep, deep_inputs):
         specs.append({'seed': 1, 'grammars': [g.to_json()], 'flavour': 'asan', 'modes': [0, 3, 4], 'tier': tier, 'timeout': 300 if q else 1200, 'explicit_inputs': [[d.hex() for d in ins]]})
     merge(ck, common.pmap(sfc.worker, specs))
+    # the fixed-size stacks (cstring_buffer with trivially destructible values) under ASan+UBSan, driven up to and beyond their capacity: an
+    # overflow must be the documented exception, never a write outside the stack (only crashes / sanitizer reports are judged here)
+    ng = capc.nullable_rich(rnd, 12 if q else 60)
+    merge(ck, common.pmap(capc.stack_worker, [{'grammar': g.to_json(), 'seed': common.seed() * 31 + i, 'n_inputs': 10 if q else 30, 'n_boundary': 16, 'safety_only': True} for i, g in enumerate(ng)]))
     merge(ck, common.pmap(sfc.regex_worker, [(common.seed() * 17 + i, 400 if q else 4000, 'asan') for i in range(8 if q else 32)]))
     ctp = rxc.gen_patterns(rnd, 48 if q else 600, max_positions=20) + rxc.rr.hand_corpus()[:24]
     merge(ck, common.pmap(rxc.judge_ct, [('C06', c, 'asan0', common.seed() + i) for i, c in enumerate(chunks(ctp, 12))]))
@@ -827,6 +850,10 @@ def c12(tier):
     ng = capc.nullable_rich(rnd, 14 if q else 160)
     extra = [(b'(' * k + b')' * k).hex() for k in (1, 2, 3, 5, 8, 12, 20)]
     merge(ck, common.pmap(capc.stack_worker, [{'grammar': g.to_json(), 'seed': common.seed() + i, 'n_inputs': 14 if q else 40, 'extra_inputs': extra if i == 0 else []} for i, g in enumerate(ng)]))
+    # literals longer than the 1024 entries reserved by the run-time stacks, parsed with a stack as deep as the text (right recursion, nesting)
+    from .grammar import simple
+    longs = [(simple('L->a L | b'), [b'a' * k + b'b' for k in (1020, 1023, 1100, 2050)]), (simple('S->( S ) | x'), [b'(' * k + b'x' + b')' * k for k in (511, 513, 700)])]
+    merge(ck, common.pmap(capc.stack_worker, [{'grammar': g.to_json(), 'seed': 1, 'n_inputs': 0, 'n_boundary': 0, 'extra_inputs': [d.hex() for d in ins], 'long_literals': True} for g, ins in longs]))
     ck.cov['rule'] = ('(1) for generated patterns incl. nested and large {n}: dfa_size_analyzer prediction vs states created by the real builder, and exact-size regex::expr instantiations built by the constant '
                       'evaluator; (2) for generated parsers of all grammar classes and lexer term sets, constructed at compile time and at run time with default limits: states/items vs caps from the '
                       'diagnostics, lexer automaton size vs capacity, cvector hook; (3) two-stage: read the real state/item counts, then instantiate the same grammar with user limits need-1/need/need+1/large: '
@@ -847,7 +874,7 @@ def replay(prop, path):
         if isinstance(case, dict) and case.get('grammar') and prop in pipeline.JUDGES:
             from .grammar import Grammar
             g = Grammar.from_json(case['grammar'])
-            modes = {'C01': [0], 'C02': [0, 3, 4], 'C05': [0], 'C08': [0, 1], 'C09': [0, 4, 8, 9], 'C10': [0, 7, 8, 9], 'C11': [1], 'C13': [0, 20, 21, 22, 23, 24, 25, 26, 27, 28, 29, 30, 31], 'C14': [0], 'C16': [0, 1, 2, 5, 6], 'C18': [0, 1, 3, 4, 7, 8, 9]}[prop]
+            modes = {'C01': [0], 'C02': [0, 3, 4], 'C05': [0], 'C08': [0, 1], 'C09': [0, 3, 4, 8, 9], 'C10': [0, 3, 4, 7, 8, 9], 'C11': [1], 'C13': [0, 20, 21, 22, 23, 24, 25, 26, 27, 28, 29, 30, 31], 'C14': [0], 'C16': [0, 1, 2, 5, 6], 'C18': [0, 1, 3, 4, 7, 8, 9]}[prop]
             inputs = [case['input']] if case.get('input') is not None else ['']
             spec = {'prop': prop, 'grammars': [g.to_json()], 'seed': 1, 'flavour': 'clang', 'cfg': {'modes': modes, 'timeout': 300}, 'explicit_inputs': [inputs]}
             outs = [pipeline.worker(spec)]
